@@ -156,12 +156,18 @@ def _p_norm(p: float, critical_pairs: list = []):
     Compute `p` norm of interpolated piecewise linear function defined from list of
     critical pairs.
     """
+    # |f|^p leaves the range of a double long before the norm does (1e4**100
+    # overflows, 1e-4**100 is 0.0), so the largest ordinate is taken out of the
+    # integrand and put back after the root: ||f||_p = top * ||f / top||_p
+    top = max((abs(float(y)) for l in critical_pairs for _, y in l), default=0.0)
+    if not 0.0 < top < np.inf:
+        top = 1.0
     result = 0.0
     for l in critical_pairs:
         for [[x0, y0], [x1, y1]] in zip(l, l[1:]):
             # the integrand is |f|^p, so only the absolute values of the
             # endpoint ordinates enter; lo <= hi
-            lo, hi = sorted((abs(float(y0)), abs(float(y1))))
+            lo, hi = sorted((abs(float(y0)) / top, abs(float(y1)) / top))
             if hi == 0.0:
                 continue
             dx = x1 - x0
@@ -183,4 +189,4 @@ def _p_norm(p: float, critical_pairs: list = []):
                 # 1 - (lo/hi)^(p+1), evaluated without cancellation for small s
                 gap = -np.expm1((p + 1) * np.log1p(-s))
                 result += hi**p * dx * gap / ((p + 1) * s)
-    return (result) ** (1.0 / p)
+    return top * (result) ** (1.0 / p)
